@@ -175,8 +175,29 @@ pub fn mamba_to_python(
     let asts: Vec<AST> = asts.into_iter().map(Result::unwrap).collect();
     trace!("Parsed {} files", asts.len());
 
-    let ctx = Context::try_from(asts.as_ref())
-        .map_err(|errs| errs.iter().map(|e| format!("{e}")).collect::<Vec<String>>())?;
+    let ctx = Context::try_from(asts.as_ref()).map_err(|errs| {
+        // Errors of context building carry no file. Name the file(s) whose own definitions cannot be
+        // read, so that the diagnostic shows their path and source; otherwise report as is.
+        let per_file: Vec<String> = asts
+            .iter()
+            .zip(&source)
+            .filter_map(|(ast, (src, path))| {
+                Context::try_from(std::slice::from_ref(ast))
+                    .err()
+                    .map(|errs| (errs, src, path))
+            })
+            .flat_map(|(errs, src, path)| {
+                errs.into_iter()
+                    .map(|err| format!("{}", err.with_source(&Some(src.clone()), &path.clone())))
+                    .collect::<Vec<String>>()
+            })
+            .collect();
+        if per_file.is_empty() {
+            errs.iter().map(|e| format!("{e}")).collect::<Vec<String>>()
+        } else {
+            per_file
+        }
+    })?;
     let (typed_ast, type_errs): (Vec<_>, Vec<_>) = asts
         .iter()
         .zip(&source)
